@@ -18,12 +18,14 @@ import (
 	"bytes"
 	"crypto/sha1"
 	"encoding/hex"
+	"errors"
 	"fmt"
 	"hash"
 	"os"
 	"path/filepath"
 	"sort"
 	"strings"
+	"syscall"
 
 	logging "gopkg.in/op/go-logging.v1"
 
@@ -243,9 +245,32 @@ func cleanScratch() {
 
 // hashTree puts t at path (relative to the working directory, or absolute under $X) and hashes it with a
 // fresh PathHasher exactly as sourceHash does (recalc=false, store=true, timestamp=false; xattrs off).
+// errKind maps an error of the real hasher to a small stable word (no paths, no errno text).
+func errKind(err error) string {
+	switch {
+	case err == nil:
+		return "ok"
+	case errors.Is(err, os.ErrNotExist):
+		return "not-exist"
+	case errors.Is(err, syscall.ELOOP):
+		return "symlink-loop"
+	case errors.Is(err, os.ErrPermission):
+		return "permission"
+	case strings.Contains(err.Error(), "panic"):
+		return "panic"
+	}
+	return "other"
+}
+
 var placed string // what is on disk right now (consecutive ops on one tree share one materialisation)
 
-func hashTree(root, path, ext string, t *Tree, newh func() hash.Hash, order int) ([]byte, error) {
+func hashTree(root, path, ext string, t *Tree, newh func() hash.Hash, order int) (out []byte, err error) {
+	defer func() {
+		if e := recover(); e != nil { // the real code must never take the harness down
+			placed = ""
+			out, err = nil, fmt.Errorf("panic: %v", e)
+		}
+	}()
 	rp, xp := expand(root), expand(path)
 	key := fmt.Sprintf("%s\x00%s\x00%s\x00%s\x00%d", root, path, ext, t.enc(), order)
 	if key == placed {
@@ -429,14 +454,19 @@ func runOp(r *lib.Run, op string) {
 		}
 		h, err := hashTree(root, path, ext, t, newh, 0)
 		if err != nil {
-			r.Emit(op, "error "+err.Error(), false)
+			r.Count("hash-error:" + errKind(err))
+			r.Emit(op, "error "+errKind(err), false)
 			return
 		}
 		// the hash is a function of the tree, not of the order its entries were created in
 		if f[0] == "sha1" {
 			// (checked on the pre op of the same tree)
-		} else if h2, err := hashTree(root, path, ext, t, newh, 1); err != nil || !bytes.Equal(h, h2) {
-			r.OracleFail("hash-depends-on-creation-order", op, fmt.Sprintf("%x vs %x (%v)", h, h2, err))
+		} else if h2, err := hashTree(root, path, ext, t, newh, 1); err != nil {
+			r.Count("hash-error:" + errKind(err))
+			r.Emit(op, "error "+errKind(err), false)
+			return
+		} else if !bytes.Equal(h, h2) {
+			r.OracleFail("hash-depends-on-creation-order", op, fmt.Sprintf("%x vs %x", h, h2))
 		}
 		r.Count(fmt.Sprintf("%s-depth%d", f[0], depth(t)))
 		r.Emit(op, lib.Hex(string(h)), t.Kind == 'l' || len(t.Ents) >= 2)
@@ -454,7 +484,8 @@ func runOp(r *lib.Run, op string) {
 		h1, err1 := hashTree(root, path, "", t, sha1.New, 0)
 		h2, err2 := hashTree(root, path, "", u, sha1.New, 0)
 		if err1 != nil || err2 != nil {
-			r.Emit(op, fmt.Sprintf("error %v %v", err1, err2), false)
+			r.Count("hash-error:" + errKind(err1) + errKind(err2))
+			r.Emit(op, "error "+errKind(err1)+" "+errKind(err2), false)
 			return
 		}
 		if !bytes.Equal(h1, h2) {
@@ -773,7 +804,9 @@ func main() {
 		runOp(r, opPre("pre", fakeRoot, "t", "", t))
 		h, err := hashTree(fakeRoot, "t", "", t, sha1.New, 1)
 		if err != nil {
-			panic(err)
+			// a hash error is an outcome of that tree (already emitted by the pre op above), never the end of the run
+			r.Count("family-hash-error:" + errKind(err))
+			continue
 		}
 		k := string(h)
 		if _, ok := groups[k]; !ok {
